@@ -595,6 +595,172 @@ theorem pathOk_normPath (o : Normalize.Opts) (fragment query : Str) {s : Str} (h
   · exact h1
 
 
+/-! ## the path does not start with two slashes -/
+
+/-- empty, the root, or a slash followed by a non-slash -/
+def Head1 (s : Str) : Prop := s = [] ∨ s = ['/'] ∨ ∃ d r, s = '/' :: d :: r ∧ d ≠ '/'
+
+theorem Head1.of_prefix {s t : Str} (h : t <+: s) (hs : Head1 s) : Head1 t := by
+  rcases hs with rfl | rfl | ⟨d, r, rfl, hd⟩
+  · left; exact List.prefix_nil.1 h
+  · obtain ⟨u, hu⟩ := h
+    cases t with
+    | nil => left; rfl
+    | cons a b =>
+      simp only [List.cons_append, List.cons.injEq] at hu
+      obtain ⟨rfl, hb⟩ := hu
+      have : b = [] := by cases b <;> simp_all
+      subst this; right; left; rfl
+  · obtain ⟨u, hu⟩ := h
+    cases t with
+    | nil => left; rfl
+    | cons a b =>
+      simp only [List.cons_append, List.cons.injEq] at hu
+      obtain ⟨rfl, hb⟩ := hu
+      cases b with
+      | nil => right; left; rfl
+      | cons c b' =>
+        simp only [List.cons_append, List.cons.injEq] at hb
+        obtain ⟨rfl, _⟩ := hb
+        right; right; exact ⟨_, _, rfl, hd⟩
+
+theorem Head1.no2 {s : Str} (hs : Head1 s) : startsWith s ['/', '/'] = false := by
+  rcases hs with rfl | rfl | ⟨d, r, rfl, hd⟩
+  · rfl
+  · rfl
+  · simp [startsWith_cons_cons, startsWith_nil, hd]
+
+theorem head1_resolveUnquoted (sts : Bool) {s : Str} (hs : AbsPath s) : Head1 (resolveUnquoted sts s) := by
+  unfold resolveUnquoted
+  rcases hs with rfl | ⟨q, rfl⟩
+  · left; rfl
+  · simp only [List.isEmpty_cons, Bool.false_eq_true, if_false]
+    rcases normpath_abs_shape q with h | ⟨d, r, h, hd⟩
+    · rw [h]
+      split
+      · right; left; rfl
+      · left; rfl
+    · rw [h]
+      split
+      · right; right; exact ⟨d, r ++ ['/'], rfl, hd⟩
+      · right; right; exact ⟨d, r, rfl, hd⟩
+
+theorem atDollar_no_slash {e : Str} (h : atDollar e = true) : '/' ∉ e := by
+  unfold atDollar at h
+  simp only [Bool.or_eq_true, List.isEmpty_iff, beq_iff_eq] at h
+  rcases h with rfl | rfl <;> decide
+
+/-- what follows an AMP marker that was cut holds no slash -/
+theorem ampCut_rest_no_slash {b : Bool} {m e : Str} (h : IsAmpCut b m e) : '/' ∉ e := by
+  obtain ⟨w, sl, _, _, h | ⟨_, _, h⟩⟩ := h
+  · rcases h.2 with h1 | ⟨_, h1⟩
+    · exact atDollar_no_slash h1
+    · unfold htmlTail at h1
+      cases hm : matchLit ".html".toList e with
+      | none => rw [hm] at h1; simp at h1
+      | some r =>
+        rw [hm] at h1
+        simp only [Option.map_some, Option.getD_some] at h1
+        obtain ⟨pre, h2, _, _, h5⟩ := matchLit_split _ _ _ hm
+        rw [h2]
+        intro hmem
+        rcases List.mem_append.1 hmem with h6 | h6
+        · obtain ⟨p, hp, hc⟩ := h5 _ h6
+          have : ∀ p ∈ ".html".toList, ciMatch p '/' = false := by decide
+          rw [this p hp] at hc; cases hc
+        · exact atDollar_no_slash h1 h6
+  · exact atDollar_no_slash h
+
+theorem head1_ampSuffixSub {s : Str} (hs : Head1 s) : Head1 (ampSuffixSub s) := by
+  rcases hs with rfl | rfl | ⟨d, r, rfl, hd⟩
+  · left; decide
+  · right; left; decide
+  · rw [ampSuffixSub_cons_slash]
+    have hdel := ampSuffixSubFrom_del (d :: r) true
+    generalize hy : ampSuffixSubFrom (d :: r) true 0 = y at hdel
+    generalize hz : d :: r = z at hdel
+    cases hdel with
+    | nil => cases hz
+    | keep b c hrest =>
+      simp only [List.cons.injEq] at hz
+      right; right; exact ⟨c, _, rfl, by rw [← hz.1]; exact hd⟩
+    | cut b m hne hcut hrest =>
+      have hno := ampCut_rest_no_slash hcut
+      have hsub := hrest.sublist.subset
+      cases y with
+      | nil => right; left; rfl
+      | cons a y' =>
+        right; right
+        refine ⟨a, y', rfl, ?_⟩
+        intro e; subst e
+        exact hno (hsub (by simp))
+
+theorem head1_stripIndex {s : Str} (hs : Head1 s) : Head1 (stripIndex s) := by
+  rcases stripIndex_spec s with h | h
+  · rw [h]; exact hs
+  · exact hs.of_prefix h.prefix
+
+theorem head1_finishPath (quoted : Bool) {s : Str} (hs : Head1 s) : Head1 (finishPath quoted s) := by
+  rcases hs with rfl | rfl | ⟨d, r, rfl, hd⟩
+  · left; exact finishPath_nil quoted
+  · right; left; rw [finishPath_cons_slash, finishPath_nil]
+  · rw [finishPath_cons_slash]
+    have := finishPath_head quoted d r hd
+    cases hf : finishPath quoted (d :: r) with
+    | nil => right; left; rfl
+    | cons c t =>
+      rw [hf] at this
+      right; right
+      exact ⟨c, t, rfl, by simpa using this⟩
+
+/-- **the path of the result does not start with `//`** -/
+theorem normPath_head1 (o : Normalize.Opts) (fragment query : Str) {s : Str} (hs : AbsPath s) :
+    Head1 (normPath o s fragment query) := by
+  have e : normPath o s fragment query = finishPath o.quoted
+      (if (o.stripTrailingSlash && endsWith
+          (if pathSteps o s = ['/'] ∧ fragment.isEmpty = true ∧ query.isEmpty = true then [] else pathSteps o s) ['/']) = true
+        then rstripChars
+          (if pathSteps o s = ['/'] ∧ fragment.isEmpty = true ∧ query.isEmpty = true then [] else pathSteps o s) ['/']
+        else (if pathSteps o s = ['/'] ∧ fragment.isEmpty = true ∧ query.isEmpty = true then [] else pathSteps o s)) := rfl
+  rw [e]
+  apply head1_finishPath
+  have h0 : Head1 (pathSteps o s) := by
+    unfold pathSteps
+    simp only
+    have habs : AbsPath (if o.lowercase = true then lower (unquotePath s) else unquotePath s) := by
+      have hu : AbsPath (unquotePath s) := by
+        rcases hs with rfl | ⟨q, rfl⟩
+        · left; exact safelyUnquote_nil _
+        · right; exact ⟨_, safelyUnquote_cons_slash _ q⟩
+      split
+      · rcases hu with h | ⟨q, h⟩
+        · left; rw [h]; rfl
+        · right; rw [h]; exact ⟨lower q, by simp [lower]; decide⟩
+      · exact hu
+    have h2 := head1_resolveUnquoted o.stripTrailingSlash habs
+    have h3 : Head1 (if o.normalizeAmp = true then
+        ampSuffixSub (resolveUnquoted o.stripTrailingSlash
+          (if o.lowercase = true then lower (unquotePath s) else unquotePath s))
+        else resolveUnquoted o.stripTrailingSlash
+          (if o.lowercase = true then lower (unquotePath s) else unquotePath s)) := by
+      split
+      · exact head1_ampSuffixSub h2
+      · exact h2
+    split
+    · exact head1_stripIndex h3
+    · exact h3
+  have h1 : Head1 (if pathSteps o s = ['/'] ∧ fragment.isEmpty = true ∧ query.isEmpty = true then []
+      else pathSteps o s) := by
+    split
+    · left; rfl
+    · exact h0
+  generalize (if pathSteps o s = ['/'] ∧ fragment.isEmpty = true ∧ query.isEmpty = true then []
+      else pathSteps o s) = x at h1 ⊢
+  split
+  · obtain ⟨t, ht, _⟩ := rstripChars_spec x ['/']
+    exact h1.of_prefix ⟨t, ht.symm⟩
+  · exact h1
+
 /-! ## the query -/
 
 /-- what the printer needs of a query (or of a piece of it): no `#`, no control character -/
@@ -810,6 +976,188 @@ theorem protoLen_netloc_rest (NL rest : Str) (hne : NL ≠ [])
     exact takeWhile_append_stop _ _ _ hdel (fun c hc => by simp at hc; subst hc; decide)
   exact hns _ hL (e1.symm.trans e2)
 
+/-! ## printing a well-formed tuple, reparsing it after `ensure_protocol` -/
+
+/-- a string that starts with a delimiter (or is empty), but not with `//`, does not start like
+a protocol -/
+theorem protoLen_of_delim_head (s : Str) (h : ∀ c, s.head? = some c → isNetlocDelim c = true)
+    (h2 : startsWith s ['/', '/'] = false) : UrlParts.protoLen s = none := by
+  unfold UrlParts.protoLen
+  rw [h2]
+  simp only [Bool.false_eq_true, if_false]
+  have : (s.takeWhile isAsciiAlpha).length = 0 := by
+    cases s with
+    | nil => rfl
+    | cons c r =>
+      have hd := h c rfl
+      have : isAsciiAlpha c = false := by
+        simp only [isNetlocDelim, Bool.or_eq_true, decide_eq_true_eq] at hd
+        rcases hd with (rfl | rfl) | rfl <;> decide
+      simp [List.takeWhile_cons, this]
+  rw [this]; simp
+
+/-- what the printer needs of a netloc -/
+structure NetlocOk (NL : Str) : Prop where
+  nodelim : ∀ c ∈ NL, isNetlocDelim c = false
+  ok : netlocOk NL = true
+  notScheme : ∀ L : Str, (∀ c ∈ L, isAsciiAlpha c = true) → NL ≠ L ++ [':']
+  noCtl : NoCtl NL
+
+theorem NetlocOk.nil : NetlocOk [] :=
+  ⟨fun _ h => by simp at h, by decide, fun L _ e => by cases L <;> simp at e, fun _ h => by simp at h⟩
+
+/-- what `normalize_url` / `fingerprint_url` return for a tuple: `urlunsplit`, then (when the
+scheme was stripped) the leading `//` is cut -/
+def printed (strip : Bool) (SC NL PA Q F : Str) : Str :=
+  if (strip && startsWith (urlunsplit20 SC NL PA Q F) ['/', '/']) = true
+  then (urlunsplit20 SC NL PA Q F).drop 2 else urlunsplit20 SC NL PA Q F
+
+/-- the scheme the parser finds after `ensure_protocol` -/
+def reSchemeOf (SC : Str) : Str := if SC = [] then ['h', 't', 't', 'p'] else SC
+
+theorem no2_path_tail (PA Q F : Str) (hh : Head1 PA) :
+    startsWith (PA ++ (queryPart Q ++ fragPart F)) ['/', '/'] = false := by
+  have htail : ∀ c, (queryPart Q ++ fragPart F).head? = some c → c ≠ '/' := by
+    intro c hc
+    rcases tail_head Q F c hc with rfl | rfl <;> decide
+  rcases hh with rfl | rfl | ⟨d, r, rfl, hd⟩
+  · cases ht : queryPart Q ++ fragPart F with
+    | nil => rfl
+    | cons c r =>
+      have := htail c (by rw [ht]; rfl)
+      simp [startsWith_cons_cons, this]
+  · cases ht : queryPart Q ++ fragPart F with
+    | nil => rfl
+    | cons c r =>
+      have := htail c (by rw [ht]; rfl)
+      simp [startsWith_cons_cons, startsWith_nil, this]
+  · simp [startsWith_cons_cons, startsWith_nil, hd]
+
+/-- **a well-formed tuple, printed the way the two URL functions print it, is read back by the
+modelled parser after `ensure_protocol`** — `http` standing for a stripped scheme.  `hnet`: a
+tuple without netloc and with a scheme outside `uses_netloc` is printed `scheme:/path` and is
+not read back (`custom:///path`). -/
+theorem print_reparse (strip : Bool) (SC NL PA Q F : Str)
+    (hsc : SC = [] ∨ (strip = false ∧ ∃ sc, SC = lower sc ∧ sc ≠ [] ∧ sc.length ≤ 64 ∧
+      sc.all isAsciiAlpha = true))
+    (hnet : NL ≠ [] ∨ SC = [] ∨ inTable usesNetloc20 SC = true)
+    (hNL : NetlocOk NL) (hpath : PathOk PA) (hhead : Head1 PA) (hq : QOk Q) (hf : NoCtl F) :
+    Ural.LruVariants.modelSplit5 (ensureProtocol (printed strip SC NL PA Q F) Ural.LruVariants.httpStr) =
+      some ⟨reSchemeOf SC, NL, PA, Q, F⟩ := by
+  have hp3 : Ural.LruVariants.httpStr = ['h', 't', 't', 'p'] := rfl
+  have hr : rstripChars ['h', 't', 't', 'p'] [':', '/'] = ['h', 't', 't', 'p'] := by decide
+  have hhttp : inTable usesNetloc20 ['h', 't', 't', 'p'] = true := by decide
+  have hno2 := hhead.no2
+  -- the string identity
+  have e1 : ensureProtocol (printed strip SC NL PA Q F) Ural.LruVariants.httpStr =
+      urlunsplit20 (reSchemeOf SC) NL PA Q F := by
+    unfold printed reSchemeOf
+    rcases hsc with rfl | ⟨hstrip, sc, rfl, h1, h2, h3⟩
+    · simp only [if_true]
+      have hbh : bodyOf ['h', 't', 't', 'p'] NL PA = '/' :: '/' :: (NL ++ PA) :=
+        bodyOf_true _ NL PA (by simp [hhttp, hno2]) hpath.abs
+      by_cases hn : NL = []
+      · subst hn
+        have hb0 : bodyOf [] [] PA = PA := bodyOf_false [] [] PA (by simp)
+        rw [urlunsplit20_eq, urlunsplit20_eq, hb0, hbh]
+        simp only [schemePart, ne_eq, not_true_eq_false, if_false, List.nil_append]
+        rw [no2_path_tail PA Q F hhead, Bool.and_false]
+        simp only [Bool.false_eq_true, if_false]
+        have hpl := protoLen_of_delim_head (PA ++ (queryPart Q ++ fragPart F))
+          (pathTail_head PA Q F hpath.abs) (no2_path_tail PA Q F hhead)
+        unfold ensureProtocol
+        rw [hpl, hp3, hr]
+        simp
+      · have hb0 : bodyOf [] NL PA = '/' :: '/' :: (NL ++ PA) :=
+          bodyOf_true _ NL PA (by simp [hn]) hpath.abs
+        rw [urlunsplit20_eq, urlunsplit20_eq, hb0, hbh]
+        simp only [schemePart, ne_eq, not_true_eq_false, if_false, List.nil_append]
+        have hsw : startsWith ('/' :: '/' :: (NL ++ PA) ++ (queryPart Q ++ fragPart F)) ['/', '/'] = true := by
+          simp [startsWith_cons_cons, startsWith_nil]
+        rw [hsw, Bool.and_true]
+        cases strip with
+        | true =>
+          simp only [if_true]
+          have e : ('/' :: '/' :: (NL ++ PA) ++ (queryPart Q ++ fragPart F)).drop 2 =
+              NL ++ (PA ++ (queryPart Q ++ fragPart F)) := by simp
+          rw [e]
+          have hpl := protoLen_netloc_rest NL (PA ++ (queryPart Q ++ fragPart F)) hn hNL.nodelim
+            (pathTail_head PA Q F hpath.abs) hNL.notScheme
+          unfold ensureProtocol
+          rw [hpl, hp3, hr]
+          simp
+        | false =>
+          simp only [Bool.false_eq_true, if_false]
+          have hpl : UrlParts.protoLen ('/' :: '/' :: (NL ++ PA) ++ (queryPart Q ++ fragPart F)) = some 2 := by
+            unfold UrlParts.protoLen; rw [hsw]; rfl
+          unfold ensureProtocol
+          rw [hpl, hp3, hr]
+          simp only [hsw, if_true]
+          simp
+    · have hne : lower sc ≠ [] := by
+        cases sc with
+        | nil => exact absurd rfl h1
+        | cons a b => simp [lower]
+      subst hstrip
+      simp only [Bool.false_and, Bool.false_eq_true, if_false, if_neg hne]
+      have hcond : (decide (NL ≠ []) || (decide (lower sc ≠ []) && inTable usesNetloc20 (lower sc) &&
+          !startsWith PA ['/', '/'])) = true := by
+        rcases hnet with h | h | h
+        · simp [h]
+        · exact absurd h hne
+        · simp [hne, h, hno2]
+      rw [urlunsplit20_eq, bodyOf_true _ NL PA hcond hpath.abs]
+      simp only [schemePart, ne_eq, hne, not_false_eq_true, if_true]
+      have e : lower sc ++ [':'] ++ ('/' :: '/' :: (NL ++ PA) ++ (queryPart Q ++ fragPart F)) =
+          lower sc ++ ':' :: '/' :: '/' :: ((NL ++ PA) ++ (queryPart Q ++ fragPart F)) := by simp
+      rw [e]
+      apply Ural.C07.ensureProtocol_of_scheme _ _ _ hne
+      · intro c hc
+        simp only [lower, List.mem_map] at hc
+        obtain ⟨d, hd, rfl⟩ := hc
+        exact Ural.C07.isAsciiAlpha_lowerChar ((List.all_eq_true.1 h3) d hd)
+      · simpa [lower] using h2
+  -- the tuple is well-formed
+  have hsch : SchemeShaped (reSchemeOf SC) ∧ lower (reSchemeOf SC) = reSchemeOf SC := by
+    unfold reSchemeOf
+    rcases hsc with rfl | ⟨_, sc, rfl, h1, _, h3⟩
+    · rw [if_pos rfl]
+      exact ⟨schemeShaped_of_letters (by simp) (by decide), by decide⟩
+    · have hne : lower sc ≠ [] := by
+        cases sc with
+        | nil => exact absurd rfl h1
+        | cons a b => simp [lower]
+      rw [if_neg hne]
+      exact ⟨schemeShaped_lower (schemeShaped_of_letters h1 h3), Ural.Canonicalize.lower_idem sc⟩
+  have hrne : reSchemeOf SC ≠ [] := by
+    obtain ⟨⟨c, r, e, _⟩, _⟩ := hsch.1
+    rw [e]; simp
+  have hwf : WF (reSchemeOf SC) NL PA Q F :=
+    { scheme_ok := Or.inr hsch
+      netloc_nodelim := hNL.nodelim
+      netloc_ok := hNL.ok
+      path_noq := hpath.noq
+      path_noh := hpath.noh
+      query_noh := hq.1
+      path_abs := fun _ => hpath.abs
+      path_no2 := fun _ => hno2
+      rel_nocolon := fun h => absurd h hrne
+      rel_nolead := fun h => absurd h hrne
+      clean := by
+        intro c hc
+        apply unsafe_of_ctl
+        simp only [List.mem_append] at hc
+        rcases hc with (((hc | hc) | hc) | hc) | hc
+        · exact hsch.1.noCtl c hc
+        · exact hNL.noCtl c hc
+        · exact hpath.noCtl c hc
+        · exact hq.2 c hc
+        · exact hf c hc }
+  rw [e1]
+  unfold Ural.LruVariants.modelSplit5
+  rw [urlsplit_urlunsplit20 _ _ _ _ _ hwf]
+  rfl
+
 /-! ## the tuple is well-formed and reparses -/
 
 section
@@ -876,138 +1224,32 @@ theorem scheme_cases :
     | bare => rw [hpr] at hs'; simp [Proto.hasProto] at hs'
 
 /-- the scheme the parser finds after `ensure_protocol` -/
-def reScheme (t : Split) : Str := if t.scheme = [] then ['h', 't', 't', 'p'] else t.scheme
+def reScheme (t : Split) : Str := reSchemeOf t.scheme
 
-/-- **the tuple `normalize_url` hands to the printer is well-formed**, with `http` for a
-stripped scheme — for every option set -/
-theorem norm_wf (hn : (normParts puny o g.proto.hasProto (g.record po)).netloc ≠ []) :
-    WF (reScheme (normParts puny o g.proto.hasProto (g.record po)))
-      (normParts puny o g.proto.hasProto (g.record po)).netloc
-      (normParts puny o g.proto.hasProto (g.record po)).path
-      (normParts puny o g.proto.hasProto (g.record po)).query
-      ((normParts puny o g.proto.hasProto (g.record po)).fragment.getD []) := by
-  have hpath : PathOk (normParts puny o g.proto.hasProto (g.record po)).path :=
-    pathOk_normPath o _ _ (Good.pathOk hpc G)
-  have hq : QOk (normParts puny o g.proto.hasProto (g.record po)).query :=
-    qOk_query puny o _ _ (Good.qOk hpc G)
-  have hf : NoCtl ((normParts puny o g.proto.hasProto (g.record po)).fragment.getD []) :=
-    noCtl_fragment puny o _ _ (G.noCtl_sub G.fragment_sub)
-  have hsch : SchemeShaped (reScheme (normParts puny o g.proto.hasProto (g.record po))) ∧
-      lower (reScheme (normParts puny o g.proto.hasProto (g.record po))) =
-        reScheme (normParts puny o g.proto.hasProto (g.record po)) := by
-    unfold reScheme
-    rcases scheme_cases hpc o G with h | ⟨sc, h, _, h1, _, h3⟩
-    · rw [if_pos h]
-      exact ⟨schemeShaped_of_letters (by simp) (by decide), by decide⟩
-    · have hne : lower sc ≠ [] := by
-        cases sc with
-        | nil => exact absurd rfl h1
-        | cons a b => simp [lower]
-      rw [h, if_neg hne]
-      exact ⟨schemeShaped_lower (schemeShaped_of_letters h1 h3), Ural.Canonicalize.lower_idem sc⟩
-  have hrne : reScheme (normParts puny o g.proto.hasProto (g.record po)) ≠ [] := by
-    obtain ⟨⟨c, r, e, _⟩, _⟩ := hsch.1
-    rw [e]; simp
-  exact
-    { scheme_ok := Or.inr hsch
-      netloc_nodelim := netloc_nodelim hpc o _ G
-      netloc_ok := netloc_ok hpc o _ G
-      path_noq := hpath.noq
-      path_noh := hpath.noh
-      query_noh := hq.1
-      path_abs := fun _ => hpath.abs
-      path_no2 := fun h => absurd h hn
-      rel_nocolon := fun h => absurd h hrne
-      rel_nolead := fun h => absurd h hrne
-      clean := by
-        intro c hc
-        apply unsafe_of_ctl
-        simp only [List.mem_append] at hc
-        rcases hc with (((hc | hc) | hc) | hc) | hc
-        · exact hsch.1.noCtl c hc
-        · exact noCtl_netloc hpc o _ G c hc
-        · exact hpath.noCtl c hc
-        · exact hq.2 c hc
-        · exact hf c hc }
+theorem parts_head1 (hp : Bool) : Head1 (normParts puny o hp (g.record po)).path :=
+  normPath_head1 o _ _ (Good.pathOk hpc G).abs
 
+theorem parts_netlocOk (hp : Bool) : NetlocOk (normParts puny o hp (g.record po)).netloc :=
+  ⟨netloc_nodelim hpc o hp G, netloc_ok hpc o hp G, netloc_not_scheme hpc o hp G, noCtl_netloc hpc o hp G⟩
 
-/-- **`ensure_protocol` puts back what `normalize_url` cut**: after `ensure_protocol`, the
-printed result is the printed tuple with `http` for a stripped scheme -/
-theorem ensureProtocol_finalString (hn : (normParts puny o g.proto.hasProto (g.record po)).netloc ≠ []) :
-    ensureProtocol (finalString o g.proto.hasProto (normParts puny o g.proto.hasProto (g.record po)))
-        Ural.LruVariants.httpStr =
-      urlunsplit20 (reScheme (normParts puny o g.proto.hasProto (g.record po)))
-        (normParts puny o g.proto.hasProto (g.record po)).netloc
-        (normParts puny o g.proto.hasProto (g.record po)).path
-        (normParts puny o g.proto.hasProto (g.record po)).query
-        ((normParts puny o g.proto.hasProto (g.record po)).fragment.getD []) := by
-  have hpath : PathOk (normParts puny o g.proto.hasProto (g.record po)).path :=
-    pathOk_normPath o _ _ (Good.pathOk hpc G)
-  have hnd := netloc_nodelim hpc o g.proto.hasProto G
-  have hns := netloc_not_scheme hpc o g.proto.hasProto G
-  have hsc := scheme_cases hpc o G
-  have hfs : finalString o g.proto.hasProto (normParts puny o g.proto.hasProto (g.record po)) =
-      if ((o.stripProtocol || !g.proto.hasProto) && startsWith
-          (urlunsplit (normParts puny o g.proto.hasProto (g.record po))) ['/', '/']) = true
-      then (urlunsplit (normParts puny o g.proto.hasProto (g.record po))).drop 2
-      else urlunsplit (normParts puny o g.proto.hasProto (g.record po)) := rfl
-  rw [hfs, urlunsplit_eq_urlunsplit20]
-  generalize (normParts puny o g.proto.hasProto (g.record po)).netloc = NL at *
-  generalize (normParts puny o g.proto.hasProto (g.record po)).path = PA at *
-  generalize (normParts puny o g.proto.hasProto (g.record po)).query = Q at *
-  generalize (normParts puny o g.proto.hasProto (g.record po)).fragment.getD [] = F at *
-  unfold reScheme
-  generalize (normParts puny o g.proto.hasProto (g.record po)).scheme = SC at *
-  have hp3 : Ural.LruVariants.httpStr = ['h', 't', 't', 'p'] := rfl
-  have hr : rstripChars ['h', 't', 't', 'p'] [':', '/'] = ['h', 't', 't', 'p'] := by decide
-  have hb : ∀ sc, bodyOf sc NL PA = '/' :: '/' :: (NL ++ PA) := fun sc =>
-    bodyOf_true sc NL PA (by simp [hn]) hpath.abs
-  rw [urlunsplit20_eq, urlunsplit20_eq, hb, hb]
-  rcases hsc with h | ⟨sc, h, hstrip, h1, h2, h3⟩
-  · subst h
-    simp only [if_true, schemePart, ne_eq, not_true_eq_false, if_false, List.nil_append]
-    have hsw : startsWith ('/' :: '/' :: (NL ++ PA) ++ (queryPart Q ++ fragPart F)) ['/', '/'] = true := by
-      simp [startsWith_cons_cons, startsWith_nil]
-    rw [hsw, Bool.and_true]
-    by_cases hs : (o.stripProtocol || !g.proto.hasProto) = true
-    · rw [if_pos hs]
-      have e : ('/' :: '/' :: (NL ++ PA) ++ (queryPart Q ++ fragPart F)).drop 2 =
-          NL ++ (PA ++ (queryPart Q ++ fragPart F)) := by simp
-      rw [e]
-      have hpl := protoLen_netloc_rest NL (PA ++ (queryPart Q ++ fragPart F)) hn hnd
-        (pathTail_head PA Q F hpath.abs) hns
-      unfold ensureProtocol
-      rw [hpl, hp3, hr]
-      simp
-    · rw [if_neg hs]
-      have hpl : UrlParts.protoLen ('/' :: '/' :: (NL ++ PA) ++ (queryPart Q ++ fragPart F)) = some 2 := by
-        unfold UrlParts.protoLen; rw [hsw]; rfl
-      unfold ensureProtocol
-      rw [hpl, hp3, hr]
-      simp only [hsw, if_true]
-      simp
-  · subst h
-    have hne : lower sc ≠ [] := by
-      cases sc with
-      | nil => exact absurd rfl h1
-      | cons a b => simp [lower]
-    rw [hstrip]
-    simp only [Bool.false_and, Bool.false_eq_true, if_false, if_neg hne, schemePart, ne_eq, hne,
-      not_false_eq_true, if_true]
-    have e : lower sc ++ [':'] ++ ('/' :: '/' :: (NL ++ PA) ++ (queryPart Q ++ fragPart F)) =
-        lower sc ++ ':' :: '/' :: '/' :: ((NL ++ PA) ++ (queryPart Q ++ fragPart F)) := by simp
-    rw [e]
-    apply Ural.C07.ensureProtocol_of_scheme _ _ _ hne
-    · intro c hc
-      simp only [lower, List.mem_map] at hc
-      obtain ⟨d, hd, rfl⟩ := hc
-      exact Ural.C07.isAsciiAlpha_lowerChar ((List.all_eq_true.1 h3) d hd)
-    · simpa [lower] using h2
+/-- the tuples that are printed unambiguously: with a netloc, or without scheme, or with a scheme
+of `uses_netloc` (`custom:///path` is none of these) -/
+def HasNet (t : Split) : Prop :=
+  t.netloc ≠ [] ∨ t.scheme = [] ∨ inTable usesNetloc20 t.scheme = true
+
+instance (t : Split) : Decidable (HasNet t) := by unfold HasNet; infer_instance
+
+omit hpc G in
+theorem finalString_eq (o : Normalize.Opts) (hp : Bool) (t : Split) :
+    finalString o hp t =
+      printed (o.stripProtocol || !hp) t.scheme t.netloc t.path t.query (t.fragment.getD []) := by
+  unfold finalString printed
+  rw [urlunsplit_eq_urlunsplit20]
 
 /-- **the printed result of `normalize_url` reparses to its tuple** (modelled parser, after
 `ensure_protocol`; `http` for a stripped scheme): every option set, every string of the class
-whose result has a netloc -/
-theorem norm_reparse (hn : (normParts puny o g.proto.hasProto (g.record po)).netloc ≠ []) :
+whose result is printed unambiguously (`HasNet`) -/
+theorem norm_reparse (hn : HasNet (normParts puny o g.proto.hasProto (g.record po))) :
     Ural.LruVariants.modelSplit5
         (ensureProtocol (finalString o g.proto.hasProto (normParts puny o g.proto.hasProto (g.record po)))
           Ural.LruVariants.httpStr) =
@@ -1016,10 +1258,14 @@ theorem norm_reparse (hn : (normParts puny o g.proto.hasProto (g.record po)).net
         (normParts puny o g.proto.hasProto (g.record po)).path,
         (normParts puny o g.proto.hasProto (g.record po)).query,
         (normParts puny o g.proto.hasProto (g.record po)).fragment.getD []⟩ := by
-  rw [ensureProtocol_finalString hpc o G hn]
-  unfold Ural.LruVariants.modelSplit5
-  rw [urlsplit_urlunsplit20 _ _ _ _ _ (norm_wf hpc o G hn)]
-  rfl
+  rw [finalString_eq o]
+  have hf : NoCtl ((normParts puny o g.proto.hasProto (g.record po)).fragment.getD []) :=
+    parts_noCtl_fragment hpc o G _
+  refine print_reparse _ _ _ _ _ _ ?_ hn (parts_netlocOk hpc o G _) (parts_pathOk hpc o G _)
+    (parts_head1 hpc o G _) (parts_qOk hpc o G _) hf
+  rcases scheme_cases hpc o G with h | ⟨sc, h, hs, h1, h2, h3⟩
+  · exact Or.inl h
+  · exact Or.inr ⟨hs, sc, h, h1, h2, h3⟩
 
 end
 
